@@ -987,7 +987,8 @@ Definition s_bin : str := Eval vm_compute in asc "bin".
 
 (** content types of the parts the operations create *)
 Definition new_part_cts : list str :=
-  [ct_slide; ct_notes_slide; ct_notes_master; ct_theme; ct_chart; ct_xlsx; ct_docx; ct_pptx; ct_ole; ct_core].
+  [ct_slide; ct_notes_slide; ct_notes_master; ct_theme; ct_chart; ct_xlsx; ct_docx; ct_pptx; ct_ole; ct_core;
+   ct_png; ct_emf].   (* the built-in poster frame and the OLE icons *)
 
 (** content types PartFactory maps to a part class with behaviour of its own *)
 Definition class_cts : list str :=
@@ -1013,7 +1014,8 @@ Record good_part (n : nat) (x : part) : Prop := mkGood {
   gp_slide_idl : (pt_ct x = ct_slide \/ pt_ct x = ct_notes_slide) -> pt_idl x = [];
   gp_master : pt_ct x = ct_slide_master ->
               NoDup (pt_idl x) /\
-              forall kr, In kr (pt_refs x ++ slot_refs (pt_slots x)) -> ~ In (snd kr) (pt_idl x)
+              (forall kr, In kr (pt_refs x ++ slot_refs (pt_slots x)) -> ~ In (snd kr) (pt_idl x)) /\
+              (forall r x', In r (pt_idl x) -> find_rel r (pt_rels x) = Some x' -> rr_type x' <> rt_slide_master)
 }.
 
 Definition reach_part (s : state) (p : nat) (x : part) : Prop := In p (iter_pids s) /\ getp s p = Some x.
@@ -1111,7 +1113,11 @@ Definition good_partb (n : nat) (x : part) : bool :=
       || match pt_idl x with [] => true | _ => false end)
   && (negb (str_eqb (pt_ct x) ct_slide_master)
       || (Opc.nodupb (pt_idl x)
-          && forallb (fun kr => negb (mem_str (snd kr) (pt_idl x))) (pt_refs x ++ slot_refs (pt_slots x)))).
+          && forallb (fun kr => negb (mem_str (snd kr) (pt_idl x))) (pt_refs x ++ slot_refs (pt_slots x))
+          && forallb (fun r => match find_rel r (pt_rels x) with
+                               | Some x' => negb (str_eqb (rr_type x') rt_slide_master)
+                               | None => true
+                               end) (pt_idl x))).
 
 Fixpoint nodupn (l : list nat) : bool :=
   match l with [] => true | x :: r => negb (memn x r) && nodupn r end.
